@@ -95,7 +95,7 @@ class UnitsEngine(Engine):
             'and newlines; chained unparenthesised ^ and negative bases are not generated), set_literal terms, conversions '
             'between two expressions of one dimension compared ACROSS the epochs of the history, and the eight LAMMPS '
             'unit-style tables. Once per run every one of the 29 non-over-determined named subsets (1-4 of the five '
-            'quantities) is reset to and checked (exhaustive per vocabulary draw). Expectations come from an independent '
+            'quantities) is reset to and checked (exhaustive per vocabulary draw). Values are real (float or integer typed) or complex. Expectations come from an independent '
             'unit table + dimension algebra applied to the five base values read after each reset. Non-trivial run: >= 2 '
             'resets. distinct = distinct (previous reset kind, reset kind, query kind, expression shape) signatures.')
     tolerances = {'round trip': '%d ulp' % RT_ULP, 'parse vs oracle': 'rel %g + slack(1e-8 per measured CODATA constant used)' % PARSE_RTOL,
